@@ -165,3 +165,21 @@ package keys
 //@ lemma cancel_u64(a int, c int, x string, y string)
 //@   assume len(le64(a)) == 8 && len(le64(c)) == 8 && (le64(a) == le64(c) ==> a == c)
 //@   ensures encUint64(a) + x == encUint64(c) + y ==> a == c && x == y
+
+// ------------------------------------------------------------------ structured values (request / condition contexts)
+// the streaming walk frames every value: a struct field is pushed WITH its key (whatever the key is, the empty string
+// included), a list element without one; a popped frame that has a key gets exactly that key written before anything
+// of its value, a frame without key gets no key — so "field k holds v" and "list holds k, v" never serialise alike
+//@ func (*PbValue).WriteTo(pbvalue, kb)
+//@   property C24
+//@   option nosafety
+//@   monitor framing
+//@     ghost keyed = false
+//@     ghost keyOf string = ""
+//@     ghost inStruct = false
+//@     before call builtin.append:keys.frame args sl, add : assert len(add) == 1 && (add[0].hasKey <==> inStruct)
+//@     after call builtin.len : keyed = false
+//@     after call (*keys.Builder).EncodeString args _, s : keyed = true ; keyOf = s
+//@     before call (*structpb.Value).GetKind args _ : assert (current.hasKey ==> keyed && keyOf == current.key) && (!current.hasKey ==> !keyed)
+//@     after call (*keys.Builder).EncodeMapHeader : inStruct = true
+//@     after call (*keys.Builder).EncodeArrayHeader : inStruct = false
